@@ -196,6 +196,8 @@ def compressible_code(ch):
 def whole_cart(seed, fmt):
     from pico8.game.formatter.p8 import P8Formatter
     from pico8.game.formatter.p8png import P8PNGFormatter, EMPTY_LABEL_FNAME
+    from vlib import prelude
+    prelude.files()
     ch = Choices(seed)
     mem, modes = cartgen.memory_from_choices(ch)
     if seed[-1] % 3 == 0:
